@@ -163,8 +163,20 @@ func Load(fset *token.FileSet, dir, pkgPath string, srcs []Source, opts LoadOpts
 		Error:                    func(err error) { p.TypeErrs = append(p.TypeErrs, err) },
 		DisableUnusedImportCheck: opts.AllowUnusedImports,
 	}
-	pkg, _ := conf.Check(pkgPath, fset, p.Files, p.Info)
-	p.Pkg = pkg
+	func() {
+		// go/types itself can panic on odd (generated) input — an internal consistency check of the
+		// toolchain, not of the code under test: such a program is outside the domain (rejected)
+		defer func() {
+			if r := recover(); r != nil {
+				p.TypeErrs = append(p.TypeErrs, fmt.Errorf("go/types panicked (toolchain): %v", r))
+			}
+		}()
+		pkg, _ := conf.Check(pkgPath, fset, p.Files, p.Info)
+		p.Pkg = pkg
+	}()
+	if p.Pkg == nil {
+		p.Pkg = types.NewPackage(pkgPath, "p")
+	}
 	return p
 }
 
